@@ -1260,6 +1260,25 @@ fn c18(r: &mut R) {
             r.h.check(true, String::new);
         }
     }
+    // the exponent transport encrypts the two halves of the scalar separately: two draws, and the two
+    // ciphertexts inside one blob never share their randomness (else m1/m2 is public)
+    {
+        let sk = PrivateKey::from(&ctx.rnd_exp(), &ctx);
+        let pk = sk.get_pk();
+        for i in 0..(if quick { 4 } else { 40 }) {
+            let x = if i == 0 { ctx.exp_from_u64(0) } else { ctx.rnd_exp() };
+            let before = vh::EXP_DRAWS.load(std::sync::atomic::Ordering::SeqCst);
+            let blob = ctx.encrypt_exp(&x, sk.get_pk());
+            let d = vh::EXP_DRAWS.load(std::sync::atomic::Ordering::SeqCst) - before;
+            match blob.ok().and_then(|bl| Vec::<Ciphertext<C>>::strand_deserialize(&bl).ok()) {
+                Some(cts) if cts.len() == 2 => {
+                    r.h.check(cts[0].gr != cts[1].gr && cts[0] != cts[1], || format!("encrypt_exp on R255 uses the same randomness for both halves of the exponent {:x} (equal gr: the quotient of the two half-plaintexts is public)", xn(&x)));
+                    r.h.check(d == 2, || format!("encrypt_exp on R255 made {} exponent draws, expected 2", d));
+                }
+                _ => r.h.check(false, || "encrypt_exp on R255 does not produce two ciphertexts".to_string()),
+            }
+        }
+    }
     let mut seen = std::collections::HashSet::new();
     for _ in 0..(if quick { 50 } else { 1000 }) {
         let x = xn(&ctx.rnd_exp());
